@@ -448,3 +448,88 @@ Example unserved_ticks_would_deadlock :
   let n1 := fst (nstep c (fst (nstep c n (XI (IHeaders acc1)))) (XI (IData acc1))) in
   snd (nsub_step n (SHeaders acc1)) = not_served /\ t_wh (n_s n1) = 0 /\ refused c (n_s n1) = true.
 Proof. vm_compute. repeat split. Qed.
+
+(* ---- THE LIMIT INSIDE THE LAZY AGGREGATION LOOP (Model/ThrottleLazy.v) ------------------------------------------
+   The theorems above are about production ATTEMPTS; in lazy mode it is the aggregation loop that decides when an
+   attempt is made: lazyTimer (one-shot, re-armed only by produceBlock) and blockTimer (produces only when
+   transactions were announced).  The node of Model/ThrottleLazy.v is the lazy loop on its two timers, in virtual
+   time, with publishBlockInternal = Throttle.produce behind it and the submission iterations / transaction
+   announcements as events at instants of the environment's choosing.  [lreach c s]: s is reachable under ANY such
+   environment (any outages, any number of refused attempts, any instants).  Times in ms; l_bt / l_li = block time /
+   lazy interval.  Tied to the real Manager.AggregationLoop on every run (lazy-loop stream, Check/ThrottleLazyCheck.v:
+   every call the loop makes of publishBlock — instant, produced or refused, height — is compared). *)
+From Verif Require Import Model.ThrottleLazy Proofs.ThrottleLazyProofs.
+
+(* the store / watermarks / DA layer of the node are those of a history of Model/Throttle.v: every theorem about
+   [final c hist] above holds of the node with its lazy loop *)
+Theorem C08_lazy_node_states_are_histories_full : forall c s, lreach c s -> exists hist, l_s s = final (l_c c) hist.
+Proof. exact lreach_hist. Qed.
+Print Assumptions C08_lazy_node_states_are_histories_full.
+
+(* the lazy timer is armed in every reachable state, no further ahead than one lazy interval (one block time before
+   the first block) after the last thing that happened: there is always a next call of publishBlock *)
+Theorem C08_lazy_timer_always_armed_full : forall c s, lreach c s ->
+  l_now s <= l_lz s /\ l_lz s <= l_now s + N.max (l_li c) (l_bt c).
+Proof. exact lreach_armed. Qed.
+Print Assumptions C08_lazy_timer_always_armed_full.
+
+(* … and the next call of publishBlock lies between now and that timer *)
+Theorem C08_lazy_next_attempt_bounded_full : forall c s, 0 < l_bt c -> lreach c s ->
+  l_now s <= next_attempt c s /\ next_attempt c s <= l_lz s.
+Proof. exact lreach_next_attempt. Qed.
+Print Assumptions C08_lazy_next_attempt_bounded_full.
+
+(* every attempt — produced or REFUSED — re-arms both timers, counted from the attempt *)
+Theorem C08_lazy_every_attempt_rearms_full : forall c s,
+  l_now (attempt c s) = next_attempt c s /\
+  l_lz (attempt c s) = next_attempt c s + l_li c /\ l_bk (attempt c s) = next_attempt c s + l_bt c.
+Proof. exact attempt_rearms. Qed.
+Print Assumptions C08_lazy_every_attempt_rearms_full.
+
+(* with nothing else happening, the node's next step IS that attempt, once the horizon reaches its instant *)
+Theorem C08_lazy_quiet_node_attempts_full : forall f c s H, next_attempt c s <= H ->
+  lrun (S f) c s [] H = lrun f c (attempt c s) [] H.
+Proof. exact lrun_quiet_attempts. Qed.
+Print Assumptions C08_lazy_quiet_node_attempts_full.
+
+(* No deadlock in lazy mode.  In any reachable state in which fewer than L committed blocks wait for the DA layer
+   (or no limit is set), the loop's next call of publishBlock comes by itself — no transaction needed — no later than
+   the armed lazy timer, and it produces a block. *)
+Theorem C08_lazy_resumes_full : forall c s, 1 <= c_init (l_c c) -> lreach c s ->
+  num_waiting_blocks (l_c c) (l_s s) < c_limit (l_c c) \/ c_limit (l_c c) = 0 ->
+  next_attempt c s <= l_lz s /\ l_lz s <= l_now s + N.max (l_li c) (l_bt c) /\
+  t_height (l_s (attempt c s)) = t_height (l_s s) + 1 /\
+  l_atts (attempt c s) = (next_attempt c s, (true, t_height (l_s s) + 1)) :: l_atts s.
+Proof. exact c08_lazy_resumes. Qed.
+Print Assumptions C08_lazy_resumes_full.
+
+(* … and a DA layer that is back gets the node there: after ANY reachable state (an outage of any length, any number
+   of refused attempts, on an idle chain or not), one header and one data iteration against an accepting DA layer, in
+   either order, at any instants before the next attempt, leave nothing waiting and the lazy timer where it was; the
+   attempt it triggers produces the next block. *)
+Theorem C08_lazy_resumes_after_outage_full : forall c s (hfirst : bool) sh sd t1 t2, 1 <= c_init (l_c c) -> lreach c s ->
+  eventually_accepts sh -> eventually_accepts sd ->
+  let e1 := if hfirst then LHeaders sh else LData sd in
+  let e2 := if hfirst then LData sd else LHeaders sh in
+  let s1 := fst (event c s t1 e1) in
+  let s2 := fst (event c s1 t2 e2) in
+  l_now s <= t1 -> t1 < next_attempt c s -> t1 <= t2 -> t2 < next_attempt c s1 ->
+  lreach c s2 /\ num_waiting_blocks (l_c c) (l_s s2) = 0 /\ l_lz s2 = l_lz s /\
+  next_attempt c s2 <= l_lz s /\ l_lz s <= l_now s + N.max (l_li c) (l_bt c) /\
+  t_height (l_s (attempt c s2)) = t_height (l_s s) + 1 /\
+  l_atts (attempt c s2) = (next_attempt c s2, (true, t_height (l_s s) + 1)) :: l_atts s.
+Proof. exact c08_lazy_resumes_after_outage. Qed.
+Print Assumptions C08_lazy_resumes_after_outage_full.
+
+(* non-vacuity: idle lazy chain, L = 2, block time 1 s, lazy interval 2.5 s, the DA layer down: blocks at 1 s and
+   3.5 s, refusals at 6 s, 8.5 s, 11 s (each re-arms the lazy timer); the DA layer is back at 12.25 s; the loop
+   produces by itself at 13.5 s and 16 s, and is refused again at 18.5 s (two blocks wait again) *)
+Example lazy_idle_chain_lives_through_an_outage :
+  let c := mk_lcfg (mk_cfg 1 2) 1000 2500 in
+  match lrun 40 c (linit c) [(12250, LHeaders acc1); (12250, LData acc1)] 19000 with
+  | Some (s, _) => rev (l_atts s) = [(1000, (true, 1)); (3500, (true, 2)); (6000, (false, 2)); (8500, (false, 2));
+                                     (11000, (false, 2)); (13500, (true, 3)); (16000, (true, 4)); (18500, (false, 4))]
+                   /\ l_lz s = 21000
+  | None => False
+  end.
+Proof. vm_compute. split; reflexivity. Qed.
